@@ -213,6 +213,10 @@ def lazy_part(ctx, prop, rng, seen, replay):
         k = 40 if ctx.thorough else 6
         jobs = [(r, n, rng.randrange(10 ** 6), ctx.work, {"dry_run": "yes"} if (prop == "C02" and i == 0) else
                  ({"max_tries": "2"} if prop in ("C03", "C04") and i % 2 == 0 else None)) for i, (r, n) in enumerate(combos[:k])]
+        if prop == "C02":
+            # corpus: a worker that supports no variant of the selected test (net5: only Fedora) beside one that does - whoever
+            # unrolls the test first, the compatible worker has to execute it
+            jobs += [("normal..tutorial1", "net4 net5", sd, ctx.work, None) for sd in (11, 12, 13, 14)]
         if prop in ("C01", "C08"):
             # corpus: a two-vm test whose vms both need a same-named setup state, non-default vm1 variant
             jobs.append(("normal..tutorial3", "net1", 7, ctx.work, {"_vm1": "Fedora"}))
